@@ -2728,6 +2728,18 @@ impl<'a> CodeGenerator<'a> {
                     .last()
                     .map_or(subject_tipo.clone(), |last| last.tipo());
 
+                // Tail cases are looked up by length below (the longest one closes the
+                // list, and an exact length `n` falls back to the longest tail case that
+                // needs at most `n` elements): order them from the longest to the
+                // shortest, whatever the order of the clauses in the source.
+                let tail_cases = tail_cases
+                    .into_iter()
+                    .sorted_by_key(|(case, _)| match case {
+                        CaseTest::ListWithTail(i) => std::cmp::Reverse(*i),
+                        _ => unreachable!(),
+                    })
+                    .collect_vec();
+
                 let longest_pattern = cases.iter().chain(tail_cases.iter()).fold(
                     0,
                     |longest, (case, _)| match case {
@@ -2752,7 +2764,7 @@ impl<'a> CodeGenerator<'a> {
                 let last_pattern = if tail_cases.is_empty() {
                     *default.as_ref().unwrap().clone()
                 } else {
-                    let tree = tail_cases.last().unwrap();
+                    let tree = tail_cases.first().unwrap();
 
                     tree.1.clone()
                 };
